@@ -178,3 +178,22 @@ Proof.
   rewrite Forall_forall in Hr. destruct (Hr f Hf) as (cs & Hne & Hc & ->).
   exists (join_with sep cs), cs. repeat split; auto. apply join2_rel_canon; auto.
 Qed.
+
+(* sequences of Writes on one read-writer: whatever was written or refused before, every path deleted by
+   any step is a file that was read from the package, below the package *)
+Theorem rw_run_deletes_confined pc files steps ds p :
+  canon_comps pc = true -> Forall rel_canon files ->
+  In (Ok ds) (rw_run (abs_of pc) files steps) -> In p ds ->
+  exists f cs, In f files /\ cs <> [] /\ canon_comps cs = true /\ p = abs_of (pc ++ cs).
+Proof.
+  intros Hpc Hf Hin Hp. unfold rw_run in Hin. apply in_map_iff in Hin as (anns & E & _).
+  unfold rw_step in E. destruct (rw_accepts (abs_of pc) anns); [|discriminate]. inv E.
+  destruct (pkg_delete_confined pc files anns p Hpc Hf Hp) as (f & cs & H1 & _ & H2 & H3 & H4).
+  eauto 10.
+Qed.
+
+(* a refused Write deletes nothing and leaves the tracked files as they were (they are not part of the
+   step's result at all: [rw_run] maps every step over the same [files]) *)
+Lemma rw_step_refused pkg files anns :
+  rw_accepts pkg anns = false -> rw_step pkg files anns = Err.
+Proof. intros H. unfold rw_step. rewrite H. reflexivity. Qed.
